@@ -65,7 +65,13 @@ def projectOracles (p : Project) (cfg : Gn.Config) (a : Analysis) (implFiles : J
     | some ts =>
       let fns := ((exportedNames ts).filter fun e => e.1 = cl!"function").map (·.2)
       let lits := callLiterals cl!"listen" ts
-      [("c12_listeners", !specEv.isEmpty && nodupS fns && sameMulti lits specEv && fns.all T.isTsIdentName && functionHeadsOk ts && !hasBad ts)]
+      -- payload type of every listener = translation of the payload's Rust type at the first emit site
+      let expectedTy : List (Str × List Tok) := a.events.map fun e =>
+        (e.name, tokens (V.addPrefix (V.visitTs cfg.mappings (Gn.tsOfStr e.payload))))
+      let realTy := listenTypes ts
+      let payloadOk := expectedTy.all fun (n, ty) => (realTy.find? (·.1 = n)).map (·.2) == some ty
+      [("c12_listeners", !specEv.isEmpty && nodupS fns && sameMulti lits specEv && fns.all T.isTsIdentName && functionHeadsOk ts && !hasBad ts),
+       ("c12_payload_types", payloadOk)]
   -- C07: declared = reachable ∩ serde-defined
   let expected := specReachable p
   let c07 : List (String × Bool) :=
@@ -225,7 +231,14 @@ def projectOracles (p : Project) (cfg : Gn.Config) (a : Analysis) (implFiles : J
   let classes := classes ++
     (if structTs.any hasSet then ["K10a_set"] else []) ++
     (if structTs.any hasResult then ["K10b_resultUnion"] else [])
-  { results := c03 ++ c12 ++ c07 ++ c09 ++ c02 ++ c04 ++ c01 ++ c10, classes := classes }
+  -- C18 at file level: a mapped Rust name is neither referenced nor declared anywhere (nor its schema constant)
+  let c18 : List (String × Bool) :=
+    if cfg.mappings.isEmpty then [] else
+    let allIds : List Str := (["types.ts", "commands.ts", "events.ts"].flatMap fun n =>
+      match fileToks implFiles n with | some ts => idents ts | none => [])
+    let mapped := cfg.mappings.filter fun m => m.1 ≠ m.2 && T.isTsIdentName m.1 && !(cfg.mappings.any fun m2 => m2.2 = m.1)
+    [("c18_mapped_name_absent", mapped.all fun m => !allIds.contains m.1 && !allIds.contains (m.1 ++ cl!"Schema"))]
+  { results := c03 ++ c12 ++ c07 ++ c09 ++ c02 ++ c04 ++ c01 ++ c10 ++ c18, classes := classes }
 where
   imp_commands_empty (a : Analysis) : Bool := a.commands.isEmpty
 
